@@ -23,9 +23,9 @@ import (
 	"io"
 	"math"
 	"os"
+	"runtime/pprof"
 	"sort"
 	"strings"
-	"runtime/pprof"
 	"sync"
 	"time"
 
@@ -682,12 +682,12 @@ func unmarshalFull(b []byte) (*object.Object, *protoobject.Object) {
 	return &o, m
 }
 
-func nilID(x *refs.ObjectID) bool          { return x == nil }
-func nilSig(x *refs.Signature) bool        { return x == nil }
-func nilHdr(x *protoobject.Header) bool    { return x == nil }
-func newID() proto.Message                 { return new(refs.ObjectID) }
-func newSig() proto.Message                { return new(refs.Signature) }
-func newHdr() proto.Message                { return new(protoobject.Header) }
+func nilID(x *refs.ObjectID) bool       { return x == nil }
+func nilSig(x *refs.Signature) bool     { return x == nil }
+func nilHdr(x *protoobject.Header) bool { return x == nil }
+func newID() proto.Message              { return new(refs.ObjectID) }
+func newSig() proto.Message             { return new(refs.Signature) }
+func newHdr() proto.Message             { return new(protoobject.Header) }
 func splitOf(h *protoobject.Header) *protoobject.Header_Split {
 	if h == nil {
 		return nil
